@@ -437,56 +437,78 @@ theorem filterMap_length_full {α β} {f : α → Option β} : ∀ {l : List α}
         true_and, Nat.add_right_cancel_iff]
       exact filterMap_length_full
 
-/-- an optional key is usable iff no agent or every agent supplied it -/
-def uniformKey (f : Entry → Option Val) (es : List Entry) : Prop :=
-  (∀ e ∈ es, f e = none) ∨ (∀ e ∈ es, (f e).isSome)
+/-- the array of an optional key is empty exactly when no agent specifies the key -/
+theorem optArray_isEmpty (f : Entry → Option Val) (es : List Entry) :
+    (optArray f es).isEmpty = es.all (fun e => (f e).isNone) := by
+  unfold optArray
+  split
+  · rename_i h; rw [h]; rfl
+  · rename_i h
+    cases es with
+    | nil => simp at h
+    | cons e es =>
+      have : (List.all (e :: es) fun e => (f e).isNone) = false := by simpa using h
+      rw [this]; rfl
 
-theorem optionalOk_iff (f : Entry → Option Val) (es : List Entry) :
-    optionalOk es.length (es.filterMap f).length = true ↔ uniformKey f es := by
-  unfold optionalOk uniformKey
-  rw [Bool.or_eq_true, beq_iff_eq, beq_iff_eq, filterMap_length_zero, filterMap_length_full]
+theorem all_isNone_of_subset {f : Entry → Option Val} {es ms : List Entry} (h : ∀ e ∈ ms, e ∈ es)
+    (ha : es.all (fun e => (f e).isNone) = true) : ms.all (fun e => (f e).isNone) = true := by
+  rw [List.all_eq_true] at ha ⊢
+  exact fun e he => ha e (h e he)
 
-/-- every optional key (alpha, edgecolors, linewidths) is supplied for all agents or for none -/
-def UniformOptional (es : List Entry) : Prop :=
-  uniformKey (·.edgecolors) es ∧ uniformKey (·.linewidths) es ∧ uniformKey (·.alpha) es
+/-- popping the key when the array of the whole space is empty changes nothing: `_fill_unspecified` would
+    not pass it for any call either -/
+theorem passKey_eq_fillKey (f : Entry → Option Val) {es ms : List Entry} (h : ∀ e ∈ ms, e ∈ es) :
+    passKey f es ms = fillKey f ms := by
+  unfold passKey
+  rw [optArray_isEmpty]
+  split
+  · rename_i ha
+    unfold fillKey
+    rw [all_isNone_of_subset h ha]
+    rfl
+  · rfl
+
+theorem zipWith_map_self {α β} (g : α → β → α) (f : α → β) (h : ∀ a, g a (f a) = a) :
+    ∀ (l : List α), List.zipWith g l (l.map f) = l
+  | [] => rfl
+  | a :: l => by simp [h a, zipWith_map_self g f h l]
+
+/-- handing matplotlib the array `_fill_unspecified` built gives every marker of the call its own value -/
+theorem withKey_fillKey (set : Entry → Option Val → Entry) (f : Entry → Option Val)
+    (hset : ∀ e, set e (f e) = e) (ms : List Entry) : withKey set (fillKey f ms) ms = ms := by
+  unfold fillKey
+  split
+  · rename_i ha
+    rw [List.all_eq_true] at ha
+    show ms.map (set · none) = ms
+    conv => rhs; rw [← List.map_id ms]
+    apply List.map_congr_left
+    intro e he
+    have : f e = none := by simpa using ha e he
+    rw [← this, hset]; rfl
+  · exact zipWith_map_self set f hset ms
 
 def groupsOf (es : List Entry) : List Group :=
-  ((distinct (es.map (·.marker))).flatMap fun m => (distinct (es.map (·.zorder))).map fun z =>
-      { marker := m, zorder := z, members := es.filter fun e => e.marker == m && e.zorder == z : Group }).filter
+  ((distinct (es.map (·.marker))).flatMap fun m => (distinct (es.map (·.zorder))).map fun z => mkGroup es m z).filter
     fun g => !g.members.isEmpty
 
-theorem optionalOk_all (es : List Entry) :
-    (optionalOk es.length (edgecolorss es).length && optionalOk es.length (linewidthss es).length &&
-      optionalOk es.length (alphas es).length) = true ↔ UniformOptional es := by
-  unfold edgecolorss linewidthss alphas UniformOptional
-  rw [Bool.and_eq_true, Bool.and_eq_true, optionalOk_iff, optionalOk_iff, optionalOk_iff, and_assoc]
-
-theorem scatter_nil : scatter [] = .ok [] := rfl
-
-theorem scatter_uniform {es : List Entry} (hne : es ≠ []) (hu : UniformOptional es) :
-    scatter es = .ok (groupsOf es) := by
+theorem scatter_eq (es : List Entry) : scatter es = groupsOf es := by
   unfold scatter
   cases es with
-  | nil => exact absurd rfl hne
-  | cons e es =>
-    simp only [List.isEmpty_cons, Bool.false_eq_true, if_false]
-    rw [(optionalOk_all (e :: es)).mpr hu]
-    rfl
+  | nil => rfl
+  | cons e es => rfl
 
-theorem scatter_nonuniform {es : List Entry} (hne : es ≠ []) (hu : ¬UniformOptional es) :
-    scatter es = .error .index := by
-  unfold scatter
-  cases es with
-  | nil => exact absurd rfl hne
-  | cons e es =>
-    simp only [List.isEmpty_cons, Bool.false_eq_true, if_false]
-    have : (optionalOk (e :: es).length (edgecolorss (e :: es)).length &&
-        optionalOk (e :: es).length (linewidthss (e :: es)).length &&
-        optionalOk (e :: es).length (alphas (e :: es)).length) = false := by
-      rw [← Bool.not_eq_true]
-      exact fun h => hu ((optionalOk_all _).mp h)
-    rw [this]
-    rfl
+theorem mkGroup_members (es : List Entry) (m z : Val) :
+    (mkGroup es m z).members = es.filter fun e => e.marker == m && e.zorder == z := rfl
+
+/-- every marker of a scatter call is drawn with the values of the agent it stands for -/
+theorem mkGroup_drawn (es : List Entry) (m z : Val) : (mkGroup es m z).drawn = (mkGroup es m z).members := by
+  have hsub : ∀ e ∈ (es.filter fun e => e.marker == m && e.zorder == z), e ∈ es :=
+    fun e he => (List.mem_filter.mp he).1
+  unfold Group.drawn mkGroup
+  simp only [passKey_eq_fillKey _ hsub]
+  rw [withKey_fillKey _ (·.alpha) (fun _ => rfl), withKey_fillKey _ (·.edgecolors) (fun _ => rfl),
+    withKey_fillKey _ (·.linewidths) (fun _ => rfl)]
 
 theorem flatMap_members_filter : ∀ (gs : List Group),
     (gs.filter fun g => !g.members.isEmpty).flatMap (·.members) = gs.flatMap (·.members)
@@ -517,10 +539,10 @@ theorem groupsOf_perm (es : List Entry) : ((groupsOf es).flatMap (·.members)).P
       simp only [Bool.and_eq_true, beq_iff_eq] at h1 h2
       exact Prod.ext (h1.1.symm.trans h2.1) (h1.2.symm.trans h2.2))
   rw [List.flatMap_assoc] at h
-  simpa only [List.flatMap_map] using h
+  simpa only [List.flatMap_map, mkGroup_members] using h
 
 theorem groupsOf_mem {es : List Entry} {g : Group} (hg : g ∈ groupsOf es) :
-    g.members ≠ [] ∧ g.members = es.filter (fun e => e.marker == g.marker && e.zorder == g.zorder) := by
+    g.members ≠ [] ∧ g = mkGroup es g.marker g.zorder := by
   unfold groupsOf at hg
   rw [List.mem_filter, List.mem_flatMap] at hg
   obtain ⟨⟨m, _, hz⟩, hne⟩ := hg
@@ -555,11 +577,11 @@ theorem spaceAgents_located {sp : Space} (hw : sp.WF) : ∀ a ∈ spaceAgents sp
   exact ⟨l, hl⟩
 
 theorem drawSpace_eq {sp : Space} (hw : sp.WF) (heap : Heap) (p : Portrayal) :
-    drawSpace sp heap p = scatter (drawEntries sp heap p) := by
+    drawSpace sp heap p = .ok (scatter (drawEntries sp heap p)) := by
   unfold drawSpace
   rw [collect_eq_filterMap _ _ _ _ (spaceAgents_located hw)]
   simp only [drawEntries, List.map_filterMap]
-  congr 2
+  congr 3
   funext a
   unfold entryOf markerOf
   cases a.location <;> rfl
